@@ -1,5 +1,6 @@
 import Anytree.Model.Resolver
 import Anytree.Spec.Walker
+import Anytree.Lemmas.CaseFold
 /-!
 # Specification of `Resolver.get` / `Resolver.glob` (C07, C08)
 -/
@@ -109,6 +110,36 @@ def mayRaise (c : Ctx α) (a : Addr) (path : String) : Bool :=
 /-- sibling names pairwise different under the resolver's comparison -/
 def SiblingUnique (c : Ctx α) : Prop :=
   ∀ a x y, x ∈ c.children a → y ∈ c.children a → cmp c.ignorecase (c.name x) (c.name y) = true → x = y
+
+/-- With `ignorecase`, `get` compares `str.upper()` and `glob` matches under `re.IGNORECASE`; the two
+agree when they induce the same equivalence on the characters *in play*: those of every node name and
+those satisfying `P` (the characters of the path).  Vacuous without `ignorecase`; holds for ASCII and
+for the regular alphabet (`CaseFold.caseRegular_regularAlphabet`); fails for the KELVIN, ANGSTROM
+and OHM signs. -/
+def CaseAgree (c : Ctx α) (P : Char → Prop) : Prop :=
+  c.ignorecase = true → CaseFold.CaseRegular (fun x => P x ∨ ∃ b, x ∈ (c.name b).toList)
+
+theorem CaseAgree.mono {c : Ctx α} {P Q : Char → Prop} (h : CaseAgree c Q) (hpq : ∀ x, P x → Q x) :
+    CaseAgree c P := fun hic =>
+  (h hic).mono fun x hx => hx.elim (fun hp => Or.inl (hpq x hp)) Or.inr
+
+theorem caseAgree_of_ignorecase_false (c : Ctx α) (P : Char → Prop) (h : c.ignorecase = false) :
+    CaseAgree c P := fun hic => by rw [h] at hic; cases hic
+
+/-- sufficient: every character of every name and of the path lies in the regular alphabet -/
+theorem caseAgree_of_regular (c : Ctx α) (P : Char → Prop)
+    (hn : ∀ b, ∀ x ∈ (c.name b).toList, x ∈ CaseFold.regularAlphabet)
+    (hp : ∀ x, P x → x ∈ CaseFold.regularAlphabet) : CaseAgree c P := fun _ =>
+  CaseFold.caseRegular_regularAlphabet.mono fun x hx =>
+    hx.elim (hp x) (fun ⟨b, hb⟩ => hn b x hb)
+
+/-- … in particular ASCII names and an ASCII path -/
+theorem caseAgree_of_ascii (c : Ctx α) (P : Char → Prop)
+    (hn : ∀ b, ∀ x ∈ (c.name b).toList, x.toNat < 128)
+    (hp : ∀ x, P x → x.toNat < 128) : CaseAgree c P :=
+  caseAgree_of_regular c P
+    (fun b x hx => List.mem_append_left _ (CaseFold.mem_asciiChars x (hn b x hx)))
+    (fun x hx => List.mem_append_left _ (CaseFold.mem_asciiChars x (hp x hx)))
 
 /-- the components of the path from the root to `a` below the root's own name -/
 def namesBelow (c : Ctx α) (a : Addr) : List String := ((prefixes a).drop 1).map c.name
